@@ -822,13 +822,19 @@ func Transform(source interface{}, target interface{}) error {
 
 // nameServices create implicit `name` key for convenience accessing service
 func nameServices(from reflect.Value, to reflect.Value) (interface{}, error) {
-	if to.Type() == reflect.TypeOf(types.Services{}) {
+	if to.Type() == reflect.TypeOf(types.Services{}) && from.Kind() == reflect.Map {
 		nameK := reflect.ValueOf("name")
 		iter := from.MapRange()
 		for iter.Next() {
 			name := iter.Key()
 			elem := iter.Value()
-			elem.Elem().SetMapIndex(nameK, name)
+			if elem.Kind() == reflect.Interface {
+				elem = elem.Elem()
+			}
+			if elem.Kind() != reflect.Map || elem.IsNil() {
+				return nil, fmt.Errorf("services.%s must be a mapping", name)
+			}
+			elem.SetMapIndex(nameK, name)
 		}
 	}
 	return from.Interface(), nil
